@@ -173,7 +173,7 @@ def V1(pt, clause, expected, observed):
 
 # ------------------------------------------------------------------ part 2
 def alphabet():
-    ops = [["read", 0], ["read", 1], ["read", 2], ["read", 3], ["read_path", 0], ["read_opts", 1], ["read_shared_opts", 0], ["read_write", 0], ["read_write", 1]]
+    ops = [["read", 0], ["read", 1], ["read", 2], ["read", 3], ["read_path", 0], ["read_opts", 1], ["read_shared_opts", 0], ["read_case", 0, "preserve"], ["read_case", 1, "lower"], ["read_write", 0], ["read_write", 1]]
     for which in ("first", "last"):
         ops += [["mut_header", which], ["mut_default", which], ["rename_curve", which], ["edit_data", which],
                 ["append_curve", which], ["delete_curve", which], ["mut_sections", which]]
@@ -185,10 +185,10 @@ def alphabet():
 # the two texts of the purity part hold DIFFERENT line shapes under the SAME section names (double dots that belong
 # to the mnemonic vs to the description, period-less and colon-less lines, time values, bracketed and numeric units):
 # anything remembered from parsing one of them must not leak into parsing the other
-_SHAPES_A = ("~Curve\nDEPT.M : depth\nCOND..MS/M : conductivity, dots belong to the mnemonic\nTEMP.°C : température\n",
+_SHAPES_A = ("~Curve\nDEPT.M : depth\nCOND..MS/M : conductivity, dots belong to the mnemonic\nTemp.°C : température\n",
              "~Parameter\nBHT.°C 35.5 : bottom hole température\nTIME.hh:mm 13:45 : Time: logged\nRUN : 3\nPRES.1000 psi 12 : numeric unit\nÅÄÖ.å äö : éèêë\n")
 _SHAPES_B = ("~Curve\nDEPT.M : depth\nRES.OHMM : deep.. dots belong to the description\nTEMP.[degC] : température\n",
-             "~Parameter\nNOTE.  no colon here\nWHO : a. b. name : x\nDATE. 2020-01-02 14:00:32 : Date: and time\nBHT.°C 35.5 : bottom hole température\n")
+             "~Parameter\nnote.  no colon here\nWho : a. b. name : x\nDATE. 2020-01-02 14:00:32 : Date: and time\nBHT.°C 35.5 : bottom hole température\n")
 _PA = T_LATIN.replace("~Curve\nDEPT.M : depth\nTEMP.°C : température\n", _SHAPES_A[0]).replace(
     "~Parameter\nBHT.°C 35.5 : bottom hole température\nÅÄÖ.å äö : éèêë\n", _SHAPES_A[1]).replace("1.0 10.5\n2.0 -999.25\n", "1.0 5 10.5\n2.0 6 -999.25\n")
 _PB = T_WRAPPED.replace("Bohrung", "Zweite Bohrung").replace("~Curve\nDEPT.M : depth\nTEMP.°C : température\n", _SHAPES_B[0]).replace(
@@ -202,7 +202,7 @@ assert "DLM. COMMA" in _PC and "1.0,10.5" in _PC and "1,0 10,5" in _PD
 PURE_TEXTS = [_PA, _PB, _PC, _PD]
 WRITE_CFGS = [{}, {"version": 1.2, "wrap": True}, {"fmt": "%.2f", "mnemonics_header": True}]
 # option OBJECTS that the caller keeps and passes to several reads: a read must not consume or edit them
-SHARED_OPTS = {"dtypes": {"DEPT": float, "TEMP": str, "COND.": float}, "read_policy": ["comma-decimal-mark", "run-on(-)"],
+SHARED_OPTS = {"dtypes": {"DEPT": float, "TEMP": str, "COND.": float, "Temp": str}, "read_policy": ["comma-decimal-mark", "run-on(-)"],
                "null_policy": ["NULL", "(null)", "9999.25", -999.25], "ignore_comments": ["#"]}
 
 
@@ -233,6 +233,9 @@ def apply_op(results, op, step, tag=None):
         return True
     if kind == "read_shared_opts":
         results.append(lasio.read(PURE_TEXTS[op[1]], **_shared_kwargs()))
+        return True
+    if kind == "read_case":
+        results.append(lasio.read(PURE_TEXTS[op[1]], mnemonic_case=op[2]))
         return True
     if kind == "read_opts":
         results.append(lasio.read(PURE_TEXTS[op[1]], mnemonic_case="lower", null_policy="all", engine="normal",
@@ -306,7 +309,7 @@ def apply_op(results, op, step, tag=None):
     return True
 
 
-CREATING = ("read", "read_path", "read_opts", "read_shared_opts", "read_write", "new_mutate", "new_write", "pickle", "deepcopy")
+CREATING = ("read", "read_path", "read_opts", "read_shared_opts", "read_case", "read_write", "new_mutate", "new_write", "pickle", "deepcopy")
 
 
 def _rsnap(las):
@@ -324,7 +327,7 @@ def module_snapshot():
     return parts
 
 
-OBS_PARTS = ["mod", "opts", "read0", "read1", "read2", "read3", "read_shared", "new", "write0"]
+OBS_PARTS = ["mod", "opts", "read0", "read1", "read2", "read3", "read_shared", "read_preserve", "read_lower", "new", "write0"]
 
 
 def observe(only=None):
@@ -350,6 +353,14 @@ def observe(only=None):
             obs["read%d" % i] = repr(canon.las_tag(lasio.read(t), "strict"))
         except Exception as e:
             obs["read%d" % i] = "raises %s: %s" % (type(e).__name__, str(e)[:200])
+    # the same texts under the other mnemonic_case options (after the default reads above, when all parts are observed)
+    for case in ("preserve", "lower"):
+        if only in (None, "read_" + case):
+            for i, t in enumerate(PURE_TEXTS[:2]):
+                try:
+                    obs["read%d_%s" % (i, case)] = repr(canon.las_tag(lasio.read(t, mnemonic_case=case), "strict"))
+                except Exception as e:
+                    obs["read%d_%s" % (i, case)] = "raises %s: %s" % (type(e).__name__, str(e)[:200])
     if only in (None, "new"):
         f = lasio.LASFile()
         obs["new"] = repr(canon.las_tag(f, "strict", data=False))
@@ -492,7 +503,7 @@ def _process_queue(queue, depth, ref):
         if oc == "ok":
             out["states"].add(vis)
             out["max_depth"] = max(out["max_depth"], len(hist))
-            if any(o[0] not in ("read", "read_path", "read_opts", "read_shared_opts") for o in hist):
+            if any(o[0] not in ("read", "read_path", "read_opts", "read_shared_opts", "read_case") for o in hist):
                 out["nontriv"] += 1
             if len(hist) < depth:
                 for op in alpha:
